@@ -33,7 +33,9 @@ MANIFEST = {
              "<=2-3 failures per history. Trusts TLC, the scripted worker's adherence to the Worker contract (checked "
              "on worker.Run separately, not in composition), and that environment events arrive while the dispatcher "
              "is settled (races inside the microsecond hand-off window are not scheduled). The meaning of a retry cap "
-             "(n attempts in total) and stale-vs-current idle wakes are conformance (drift), not verdicts. Hangs are "
+             "(n attempts in total) is conformance (drift), not a verdict; an idle-timeout verdict is accepted only "
+             "for the wake of the batch's CURRENT idle window (a wake of a window in which a success was accounted "
+             "must be dropped), and after the hard deadline the next accounted result must end the batch. Hangs are "
              "reported after 1.5 s (normal step < 1 ms) with a goroutine dump.",
         design="4 C12", technique="TLA+ spec + TLC exhaustive + spec-to-code replay of every transition + trace "
                                   "validation of recorded executions + TLC-judged observed traces"),
@@ -42,7 +44,7 @@ MANIFEST = {
 PROPS = {
     "C12": ["AtMostOneVerdict", "SuccessMeansAllAnswered", "ErrorHasCause", "AllAnsweredGetsVerdict",
             "QueryReturns", "ResultAccepted", "StopReturns", "NoPanic", "OneVerdictAfterStop",
-            "PrefersBetterRanked", "ReissueWhenAvailable"],
+            "PrefersBetterRanked", "ReissueWhenAvailable", "HardDeadlineEndsBatch"],
 }
 # the worker's part of C12 (specs/WorkManager/Worker.tla, WorkerProps.tla)
 WPROPS = ["WorkerOneResultPerJob", "WorkerSuccessMeansFinished", "WorkerResultNamesCause",
@@ -73,7 +75,8 @@ SLICES = {
         # two batches in flight on two peers
         ("two", cfg(MaxBatch=2, MaxReq=1, Retries="{1}", MaxCancel=1)),
         # hard and idle timeouts on/off, stale and late wakes
-        ("timersA", cfg(NAddr=1, MaxConn=1, Hards="{0,1}", Progs="{0,1}", MaxStale=1)),
+        # (unlimited retries + hard deadline + failing results: only the deadline can end such a batch)
+        ("timersA", cfg(NAddr=1, MaxConn=1, Retries="{0,2}", Hards="{0,1}", Progs="{0,1}", MaxFail=2, MaxStale=1)),
         ("timersB", cfg(NAddr=1, MaxConn=1, MaxBatch=2, MaxReq=1, Hards="{1}", Progs="{1}", MaxStale=1)),
     ],
     "thorough": [
@@ -83,7 +86,7 @@ SLICES = {
         ("retry2", cfg(MaxBatch=2, Retries="{1,2}", MaxFail=2)),
         ("retry1", cfg(Retries="{0,1,2}", MaxFail=3, MaxCancel=1)),
         ("cancel2", cfg(MaxBatch=2, MaxCancel=1)),
-        ("timers1", cfg(Hards="{0,1}", Progs="{0,1}", MaxStale=1)),
+        ("timers1", cfg(Retries="{0,2}", Hards="{0,1}", Progs="{0,1}", MaxFail=2, MaxStale=1)),
         ("timersB", cfg(NAddr=1, MaxConn=1, MaxBatch=2, MaxReq=2, Hards="{1}", Progs="{1}", MaxStale=1)),
         ("timersC", cfg(Hards="{1}", Progs="{1}", MaxStale=1, MaxCancel=1)),
         # three addresses competing by rank; four peer objects of one address; three requests per batch
